@@ -143,3 +143,15 @@ From XcpProofs Require Import XOps.
 Theorem C12_src_copy_file_single_pass : x_copy_file_steps = copy_file_steps.
 Proof. exact x_copy_file_steps_ok. Qed.
 Print Assumptions C12_src_copy_file_single_pass.
+
+(* ---- Driver::copy, translated (the joins): the call returns Ok exactly when the walker and EVERY worker (parfile) /
+   the walker and the dispatcher (parblock) returned Ok: no thread's error is dropped, whichever thread it is ---- *)
+From XcpProofs Require Import XDrivers.
+Theorem C12_src_parfile_copy_reports_every_thread : forall walk workers,
+  x_parfile_copy_result walk workers = None <-> walk = None /\ List.Forall (fun r => r = None) workers.
+Proof. exact x_parfile_copy_ok_iff. Qed.
+Theorem C12_src_parblock_copy_reports_every_thread : forall walk disp,
+  x_parblock_copy_result walk disp = None <-> walk = None /\ disp = None.
+Proof. exact x_parblock_copy_ok_iff. Qed.
+Print Assumptions C12_src_parfile_copy_reports_every_thread.
+Print Assumptions C12_src_parblock_copy_reports_every_thread.
